@@ -2115,6 +2115,47 @@ def sec_flatten(ctx, rng, case):
         Ro = cirq.resolve_parameters(C, sw_list[i])
         for j, ops in enumerate(moments):
             check_resolved_ops(ctx, list(Ro[j].operations), ops, dims, e, "original", moment=j, index=i, **wit)
+    # the same assignment given as a chain (a -> link -> number): the new symbols still get numbers, and the flattened
+    # circuit resolved with them equals the original with the numbers substituted
+    e = good_envs[0]
+    used = sorted(n_ for n_ in e if any(n_ in m.names() for m in flat_ops))
+    if used and not collide:
+        a_ = used[int(rng.integers(len(used)))]
+        chain = {k: v for k, v in e.items()}
+        chain[a_] = S("zz_link")
+        if rng.random() < 0.5:
+            chain["zz_link"] = S("zz_link2")
+            chain["zz_link2"] = e[a_]
+        else:
+            chain["zz_link"] = e[a_]
+        chain_res = cirq.ParamResolver(chain)
+        ctx.event("flatten:chained-assignment")
+        tpc = emap.transform_params(chain_res)
+        okc = True
+        for formula, sym in emap.items():
+            got = tpc.get(sym, None)
+            okc = okc and got is not None and _is_plain_number(got) and _close(got, EV.evaluate(formula, e), 100)
+        ctx.check(okc, "flatten-params", "C10:flatten:transform_params-chained-assignment",
+                  lambda: "transform_params(%r) = %r for map %r" % (chain, tpc, emap), **wit)
+        tsc = emap.transform_sweep([chain_res])
+        ts0 = {str(k): v for k, v in tsc[0].param_dict.items()}
+        okc = all(_is_plain_number(ts0.get(sym.name)) and _close(ts0.get(sym.name), EV.evaluate(formula, e), 100) for formula, sym in emap.items())
+        ctx.check(okc, "flatten-sweep", "C10:flatten:transform_sweep-chained-assignment",
+                  lambda: "transform_sweep([%r])[0] = %r for map %r" % (chain, ts0, emap), **wit)
+        for how in ("flatten_with_params", "flatten_with_sweep"):
+            if how == "flatten_with_params":
+                cf, res = cirq.flatten_with_params(C, chain_res)
+            else:
+                cf, sw_ = cirq.flatten_with_sweep(C, [chain_res])
+                res = sw_[0]
+            R = cirq.resolve_parameters(cf, res)
+            allok = not cirq.is_parameterized(R)
+            ctx.check(allok, "flatten-gate-by-gate", "C10:flatten:chained-assignment-leaves-symbols:" + how,
+                      "resolve(flat, transformed chain) is still parameterized: %s" % sorted(cirq.parameter_names(R)), **wit)
+            if allok:
+                for j, ops in enumerate(moments):
+                    allok = check_resolved_ops(ctx, list(R[j].operations), ops, dims, e, how + ":chained", multi_step=True, moment=j, **wit) and allok
+                ctx.check(allok, "flatten-gate-by-gate", K_MOMENT_EQ if any(_eq_blind(m) for m in flat_ops) else "C10:flatten:chained:" + how, "", **wit)
     # single gates and operations flatten too
     m0 = [m for m in flat_ops if m.gate_names()][0]
     g = m0.gate()
